@@ -807,3 +807,15 @@ def replay_clause_order(viol, prop="C06"):
             cases.append(("%s, findall(T, d(%s, T), L), show(L)" % (setup, k0),
                           "[z,q]" if how == "asserta" else "[q,z]"))
     return run_cases(ORD_PROGRAM, cases, {"model": viol}, prop, "clause_order", batch=True)
+
+
+# ---------------------------------------------------------------- C55 (hex escapes)
+def replay_hex_escapes(viol):
+    """white space / control characters without a symbolic escape are written as \\xH..H\\ with the
+    whole code point, and the output reads back as the same atom"""
+    cps = [0x01, 0x1f, 0x7f, 0x85, 0xa0, 0x1680, 0x2000, 0x2028, 0x2029, 0x205f, 0x3000]
+    cases = []
+    for cp in cps:
+        cases.append(("atom_codes(A, [0'a, %d, 0'b]), writeq(A), nl" % cp, "'a\\x%x\\b'" % cp))
+        cases.append(("atom_codes(A, [%d]), writeq(f(A)), nl" % cp, "f('\\x%x\\')" % cp))
+    return run_cases("", cases, {"model": viol}, "C55", "hex_escapes", batch=True)
